@@ -1,9 +1,255 @@
-import GS.Model.RespLifecycle
-/-! C25 property theorems (being filled in). -/
-namespace GS.C25
-open GS.RespLife
+import GSProofs.Lemmas.RespLifePark
+import GS.Temporal
+import GS.Generated.MgrTx
+/-!
+# C25 — A stalled peer cannot block service to other peers   (responder side)
 
-/-- placeholder while the invariants are being proved: the initial state has an empty table -/
-theorem init_table (limit : Nat) : (init limit).table = [] := rfl
+Model: `GS.RespLife`.  A transaction executed INSIDE a manager step (`newRequest`'s prepareQuery,
+`processUpdate` on a paused response, `unpauseRequest`, `updateRequest`) calls
+`AllocateAndBuildMessage` synchronously; when the peer's reservation cannot be granted the manager
+process is parked (`State.park`) and handles no mailbox message of ANY peer until the grant.
+
+-- FULL STATEMENT (false, see `counterexample`):
+--   theorem responder : Reachable limit s → (peer A stalled or at its memory limit in s) →
+--     every mailbox message from a peer B ≠ A is eventually handled and B's requests progress,
+--     on every weakly fair execution from s in which A stays stalled.
+
+* `counterexample`: a reachable state (fresh ids, per-peer limit 100) in which the manager is parked on
+  peer 0's reservation, a `new` request of peer 1 waits in the mailbox, and NO internal action of any
+  process is enabled (or it is a no-op): the execution that stays in this state forever is weakly fair
+  (`counterexample_fair_execution`), peer 0's network never acknowledging is environment behaviour,
+  and peer 1's message is never handled.  Replayed on the real code by corpus/C25 and the `stall`
+  stream (known finding `manager-blocked-on-peer-reservation`).
+* `partial_never_parks` (C25.partial, safety core): if the manager only ever handles messages whose
+  manager-side transactions carry no extension data (size 0), it never parks.
+* `partial_handled` (C25.partial, liveness): on every execution on which the manager is never parked
+  and which is weakly fair for the manager action, the manager keeps handling: whenever the mailbox is
+  non-empty a message is eventually handled.  (Go scheduler fairness is an assumption, not modelled.)
+-/
+namespace GS.C25
+open GS.RespLife GS.Temporal
+
+-- ------------------------------------------------------------------ C25.partial
+/-- the manager only handles messages without manager-side extension data -/
+def NoExtStep (s : State) : Action → Prop
+  | .mgr => match s.park, s.mailbox with
+    | none, m :: _ => msgNoExt m = true
+    | _, _ => True
+  | _ => True
+
+inductive ReachableNE (limit : Nat) : State → Prop
+  | init : ReachableNE limit (init limit)
+  | step {s s' a} : ReachableNE limit s → NoExtStep s a → step s a = some s' → ReachableNE limit s'
+
+/-- **C25.partial** (safety core): when all manager-side transactions have size 0 — no extension data
+    from request hooks, from update hooks of paused responses, or passed to UnpauseResponse /
+    UpdateResponse — the response manager goroutine never parks in a memory reservation. -/
+theorem partial_never_parks {limit : Nat} {s : State} (h : ReachableNE limit s) : s.park = none := by
+  induction h with
+  | init => rfl
+  | @step s s' a _ hne hs ih =>
+    by_cases ha : a = .mgr
+    · subst ha
+      simp only [step, mgrStep, ih] at hs
+      split at hs
+      · cases hs
+      · rename_i m rest hm
+        cases hs
+        have hx : msgNoExt m = true := by
+          simp only [NoExtStep, ih, hm] at hne
+          exact hne
+        exact park_handle_noext _ m rfl hx
+    · exact park_other_step hs ha ih
+
+-- ------------------------------------------------------------------ C25.counterexample
+def cfgA (n : Nat) : ReqCfg := { pri := 1, hook := ⟨.accept, false⟩, n, miss := none, bh := [] }
+def cfgExt : ReqCfg := { pri := 1, hook := ⟨.accept, true⟩, n := 1, miss := none, bh := [] }
+
+/-- peer 0 stops acknowledging after its first block; its allowance (100 bytes) is exhausted by the
+    second; then a request of peer 0 whose request hook attaches extension data arrives, then an
+    ordinary request of peer 1 -/
+def stallScript : List Action :=
+  [.primer 0, .extract 0, .primer 1, .extract 1,
+   .recv 0 (.new 0 (cfgA 3)), .mgr, .pop 0 0, .mgr, .wstep 0 0,
+   .net 0 true,                      -- the last acknowledgement peer 0 ever sends
+   .wstep 0 0, .extract 0,           -- block 0 (88 bytes) reserved and in flight
+   .wstep 0 0,                       -- block 1: 88 + 88 > 100, the WORKER waits (by design)
+   .recv 0 (.new 1 cfgExt), .mgr,    -- request hook sends 17 bytes: the MANAGER waits behind it
+   .recv 1 (.new 2 (cfgA 2))]        -- peer 1's request: stays in the mailbox
+
+def stalled : State := run (init 100) stallScript
+
+/-- internal (fair) actions: everything except what the environment does (`recv`, `api`, `net`, `primer`) -/
+def Internal : Action → Prop
+  | .mgr | .pop _ _ | .reap _ | .wstep _ _ | .extract _ | .pub _ | .thaw => True
+  | _ => False
+
+theorem popTask_none (s : State) (p : Peer) (id : Id) (h : s.queues.all (fun q => q.pending.isEmpty) = true) :
+    popTask s p id = none := by
+  unfold popTask
+  simp only
+  have : (getQ s p).pending = [] := by
+    unfold getQ
+    split
+    · rename_i q hq
+      have := List.mem_of_find?_eq_some hq
+      have := List.all_eq_true.1 h q this
+      simpa using this
+    · rfl
+  rw [this]
+  simp
+
+theorem reap_none (s : State) (p : Peer)
+    (h : s.queues.all (fun q => !(q.pending.isEmpty && q.active.isEmpty)) = true) : reap s p = none := by
+  unfold reap
+  split
+  · rename_i q hq
+    have := List.all_eq_true.1 h q (List.mem_of_find?_eq_some hq)
+    simp only [Bool.not_eq_true'] at this
+    rw [if_neg]
+    simp [this]
+  · rfl
+
+def inert : WPhase → Bool
+  | .waitStart | .waitFinish | .done | .waitUpdates _ _ | .blockedTx _ _ false => true
+  | _ => false
+
+theorem wstep_none (s : State) (w pick : Nat) (h : s.workers.all (fun x => inert x.phase) = true) :
+    wstep s w pick = none := by
+  unfold wstep
+  split
+  · rfl
+  · rename_i wk hw
+    have hmem : wk ∈ s.workers := by
+      unfold workerOf at hw
+      exact List.mem_of_getElem? hw
+    have := List.all_eq_true.1 h wk hmem
+    cases hp : wk.phase with
+    | blockedTx ops k g =>
+      cases g
+      · rfl
+      · rw [hp] at this; simp [inert] at this
+    | waitStart => rfl
+    | waitFinish => rfl
+    | done => rfl
+    | waitUpdates ops present => rfl
+    | started => rw [hp] at this; simp [inert] at this
+    | atLoader => rw [hp] at this; simp [inert] at this
+    | gotUpdates a b c => rw [hp] at this; simp [inert] at this
+    | inHook a b => rw [hp] at this; simp [inert] at this
+
+theorem extract_none (s : State) (p : Peer)
+    (h : s.mqs.all (fun q => q.inflight.isSome || (match q.next with | none => true | some b => b.empty)) = true) :
+    extract s p = none := by
+  unfold extract
+  simp only
+  have hq : (getMQ s p).inflight.isSome = true ∨ (match (getMQ s p).next with | none => true | some b => b.empty) = true := by
+    unfold getMQ
+    split
+    · rename_i q hq
+      have := List.all_eq_true.1 h q (List.mem_of_find?_eq_some hq)
+      simpa using this
+    · right; rfl
+  split
+  · rename_i b h1 h2
+    rcases hq with hq | hq
+    · rw [h1] at hq; cases hq
+    · rw [h2] at hq
+      simp only at hq
+      rw [if_pos hq]
+  · rfl
+
+theorem pubStep_none (s : State) (p : Peer) (h : s.mqs.all (fun q => q.pubQ.isEmpty) = true) :
+    pubStep s p = none := by
+  unfold pubStep
+  simp only
+  have : (getMQ s p).pubQ = [] := by
+    unfold getMQ
+    split
+    · rename_i q hq
+      have := List.all_eq_true.1 h q (List.mem_of_find?_eq_some hq)
+      simpa using this
+    · rfl
+  rw [this]
+  split <;> rfl
+
+/-- **C25.counterexample** (the state): reachable with fresh ids; the manager is parked, ungranted, on
+    peer 0's reservation inside `newRequest`; peer 1's request is in the mailbox, unhandled; the only
+    thing that can ever release the manager is the environment action `net 0 _` (peer 0's send
+    completing): no internal action of any process is enabled, or it changes nothing. -/
+theorem counterexample :
+    ReachableFresh 100 stalled ∧
+    (∃ pk, stalled.park = some pk ∧ pk.peer = 0 ∧ pk.granted = false) ∧
+    Msg.processRequests 1 (.new 2 (cfgA 2)) ∈ stalled.mailbox ∧
+    (∀ a, Internal a → step stalled a = none ∨ step stalled a = some stalled) := by
+  refine ⟨?_, ⟨_, rfl, by decide, by decide⟩, by decide, ?_⟩
+  · exact reachableFresh_run ReachableFresh.init _ (by decide)
+  · intro a ha
+    cases a with
+    | mgr => left; decide
+    | pop p id => left; exact popTask_none _ p id (by decide)
+    | reap p => left; exact reap_none _ p (by decide)
+    | wstep w pick => left; exact wstep_none _ w pick (by decide)
+    | extract p => left; exact extract_none _ p (by decide)
+    | pub p => left; exact pubStep_none _ p (by decide)
+    | thaw => right; decide
+    | recv p r => exact absurd ha (by simp [Internal])
+    | api c => exact absurd ha (by simp [Internal])
+    | net p ok => exact absurd ha (by simp [Internal])
+    | primer p => exact absurd ha (by simp [Internal])
+
+/-- the responder as a transition system of the temporal layer -/
+def sys : Sys State Action := ⟨step⟩
+
+/-- the execution that stays in the stalled state forever -/
+def stuck : Nat → State := fun _ => stalled
+
+/-- **C25.counterexample** (the lasso): the execution `stuck` is an execution of the model, it is
+    weakly fair for every internal action of every process (manager, workers, queue goroutines,
+    publishers, ticker) — none of them is ever enabled, or taking it changes nothing — peer 1's
+    request is in the mailbox from the start, and it is never handled.  So "a mailbox message of a peer
+    other than the stalled one is eventually handled" is false on a fair execution. -/
+theorem counterexample_fair_execution :
+    Exec sys stuck ∧ WF1 sys Internal stuck ∧
+    ¬ LeadsTo stuck (fun s => Msg.processRequests 1 (.new 2 (cfgA 2)) ∈ s.mailbox)
+                    (fun s => s.handled > stalled.handled) := by
+  refine ⟨fun _ => Or.inl rfl, ?_, ?_⟩
+  · intro a ha i hen
+    rcases counterexample.2.2.2 a ha with h | h
+    · have := hen i (Nat.le_refl _)
+      simp [Sys.enabled, sys, stuck, h] at this
+    · exact ⟨i, Nat.le_refl _, h⟩
+  · intro hl
+    obtain ⟨j, _, hj⟩ := hl 0 counterexample.2.2.1
+    exact Nat.lt_irrefl _ hj
+
+-- ------------------------------------------------------------------ tie to the source, requestor side
+/-- the transactions the real response manager executes on its own goroutine that can carry data
+    (regenerated from server.go / preparequery.go on every run) are exactly the four manager steps that
+    can park in the model: `MgrCont.procUpdate`, `.unpause`, `.update`, `.newReq` (= prepareQuery).  A
+    new manager-side transaction with data, or one moved to the executor, changes the generated table
+    and breaks this theorem. -/
+theorem manager_tx_sites :
+    (GS.Generated.MgrTx.managerTransactions.filter (·.2)).map (·.1) =
+      ["processUpdate", "unpauseRequest", "updateRequest", "prepareQuery"] := by decide
+
+/-- **C25.requestor**: the request manager's only call into a peer's message queue made on its own
+    goroutine, `SendRequest`, reserves 0 bytes (regenerated from requestmanager/client.go), the queue
+    reserves memory only for sizes > 0 (regenerated from messagequeue.go), and in the model a
+    transaction of size 0 never waits.  (That response collectors buffer without bound, so that the
+    request manager never waits for a consumer either, is covered by the C04 cluster.) -/
+theorem requestor :
+    GS.Generated.MgrTx.sendRequestReservation = 0 ∧
+    GS.Generated.MgrTx.reservationGuardedBySizePositive = true ∧
+    ∀ (s : State) (party : Party) (p : Peer) (id : Id) (ops : List TxOp),
+      txSize s.extLen ops = 0 → (execTx s party p id ops).2 = true :=
+  ⟨rfl, rfl, execTx_size0⟩
+
+/-- non-vacuity of `partial_never_parks`: a non-trivial state reachable under its hypothesis (a request
+    without hook data is registered and queued) -/
+example : ∃ s, ReachableNE 100 s ∧ s.table ≠ [] := by
+  refine ⟨run (init 100) [.recv 0 (.new 0 (cfgA 3)), .mgr], ?_, by decide⟩
+  exact ReachableNE.step (a := .mgr) (ReachableNE.step (a := .recv 0 (.new 0 (cfgA 3))) ReachableNE.init trivial rfl)
+    (by show msgNoExt _ = true; rfl) rfl
 
 end GS.C25
